@@ -187,6 +187,7 @@ func NewWorld(repo, verifd string, needTests bool) (*World, error) {
 	if len(w.All) < 16 {
 		return w, fmt.Errorf("load: only %d packages of %s loaded (expected >= 16)", len(w.All), modPath)
 	}
+	w.resolveRenames()
 	return w, nil
 }
 
@@ -267,7 +268,7 @@ func (w *World) PosStr(pos token.Pos) string {
 
 func (w *World) Func(pkgKey, name string) *types.Func {
 	p := w.Pkg(pkgKey)
-	if o, ok := p.Types.Scope().Lookup(name).(*types.Func); ok {
+	if o, ok := scopeLookup(p.Types.Scope(), name).(*types.Func); ok {
 		return o
 	}
 	panic(undecided{fmt.Sprintf("func %s.%s not found", pkgKey, name)})
@@ -275,14 +276,14 @@ func (w *World) Func(pkgKey, name string) *types.Func {
 
 func (w *World) Method(pkgKey, typ, name string) *types.Func {
 	p := w.Pkg(pkgKey)
-	tn, ok := p.Types.Scope().Lookup(typ).(*types.TypeName)
+	tn, ok := scopeLookup(p.Types.Scope(), typ).(*types.TypeName)
 	if !ok {
 		panic(undecided{fmt.Sprintf("type %s.%s not found", pkgKey, typ)})
 	}
 	for _, t := range []types.Type{tn.Type(), types.NewPointer(tn.Type())} {
 		ms := types.NewMethodSet(t)
 		for i := 0; i < ms.Len(); i++ {
-			if f, ok := ms.At(i).Obj().(*types.Func); ok && f.Name() == name {
+			if f, ok := ms.At(i).Obj().(*types.Func); ok && nm(f) == name {
 				return f
 			}
 		}
@@ -305,7 +306,7 @@ func (w *World) TryMethod(pkgKey, typ, name string) (f *types.Func) {
 
 func (w *World) Var(pkgKey, name string) *types.Var {
 	p := w.Pkg(pkgKey)
-	if o, ok := p.Types.Scope().Lookup(name).(*types.Var); ok {
+	if o, ok := scopeLookup(p.Types.Scope(), name).(*types.Var); ok {
 		return o
 	}
 	panic(undecided{fmt.Sprintf("var %s.%s not found", pkgKey, name)})
@@ -367,6 +368,14 @@ func (w *World) SSAFunc(f *types.Func) *ssa.Function {
 func funcKey(fn *ssa.Function) string {
 	s := fn.String()
 	s = strings.ReplaceAll(s, modPath+"/", "")
+	// a renamed function keeps the key it had when the rules were written
+	for g := fn; g != nil; g = g.Parent() {
+		if o := g.Object(); o != nil {
+			if on, ok := origName[o]; ok {
+				s = strings.Replace(s, "."+g.Name(), "."+on, 1)
+			}
+		}
+	}
 	return s
 }
 
